@@ -96,6 +96,10 @@ func main() {
 				fmt.Printf("%-45s TRUSTED (%s)\n", k, ct.TrustWhy)
 				continue
 			}
+			if ct := E.CS.get(k); ct != nil && ct.InlineOnly() {
+				fmt.Printf("%-45s INLINED (no contract of its own; verified inside each caller)\n", k)
+				continue
+			}
 			fr := E.verifyFunc(k)
 			if fr.Err != nil {
 				fmt.Printf("%-45s TOOL-LIMIT %v\n", k, fr.Err)
